@@ -20,8 +20,8 @@ def sh(cmd, cwd=None, env=None, timeout=3600):
     return cp.returncode, cp.stdout + cp.stderr
 
 
-def verify(pid, x):
-    src = "/tmp/seed_%s/%s" % (pid, x)
+def verify(pid, x, srcroot=None, store_as=None):
+    src = "%s/%s" % (srcroot or ("/tmp/seed_%s" % pid), x)
     patch = os.path.join(src, "patch.diff")
     demo = os.path.join(src, "demo.py")
     for p in (patch, demo):
@@ -63,7 +63,7 @@ def verify(pid, x):
     print("VERIFIED" if ok else "REJECTED")
     if not ok:
         return 1
-    name = "%s-%s" % (pid, x)
+    name = "%s-%s" % (pid, store_as or x)
     dst = os.path.join(SEEDED, name)
     os.makedirs(dst, exist_ok=True)
     shutil.copy(patch, os.path.join(dst, "patch.diff"))
@@ -161,7 +161,16 @@ def table():
 def main():
     a = sys.argv[1:]
     if a[0] == "verify":
-        return verify(a[1], a[2])
+        srcroot = store_as = None
+        if "--src" in a:
+            i = a.index("--src")
+            srcroot = a[i + 1]
+            del a[i:i + 2]
+        if "--as" in a:
+            i = a.index("--as")
+            store_as = a[i + 1]
+            del a[i:i + 2]
+        return verify(a[1], a[2], srcroot, store_as)
     if a[0] == "run":
         tier = "quick"
         if "--tier" in a:
